@@ -216,8 +216,11 @@ Proof.
   - destruct (is_idle _); simpl.
     + eapply RM_trans; [|apply RM_commit]. eapply RM_trans; [|apply RM_check_affected]. frame.
     + eapply RM_trans; [|apply RM_commit]. apply (RM_check_affected sp (s, [])).
-  - destruct (state_eqb _ SUCCESS); [apply RM_refl|].
-    simpl. eapply RM_trans; [|apply RM_commit]. eapply RM_trans; [|apply RM_check_affected]. frame.
+  - destruct (negb r && negb (is_idle _)); [apply RM_refl|].
+    destruct (negb r).
+    + simpl. eapply RM_trans; [|apply RM_commit]. eapply RM_trans; [|apply RM_check_affected]. frame.
+    + destruct (state_eqb _ SUCCESS); [apply RM_refl|].
+      simpl. eapply RM_trans; [|apply RM_commit]. eapply RM_trans; [|apply RM_check_affected]. frame.
 Qed.
 
 Lemma do_result_M sp s aid res : RM s (fst (do_result sp s aid res)).
